@@ -63,6 +63,41 @@ def instantiate(eng, exprs, max_rounds=3):
     return axioms
 
 
+def concrete_struct_axioms(exprs):
+    """Counterexample mode: give every u_*(d, p) / p_*(x) application occurring in the query its concrete big-endian
+    two's-complement meaning over the bytes of d.  True facts about struct, so adding them is sound; they turn an
+    abstract candidate counter-model into one whose bytes really decode to the values the model uses (or show the
+    candidate was an artefact of the abstraction: unsat)."""
+    from .engine import CODE_BY_NAME
+    seen = set()
+    out = []
+    stack = list(exprs)
+    while stack:
+        e = stack.pop()
+        i = e.get_id()
+        if i in seen:
+            continue
+        seen.add(i)
+        if z3.is_app(e):
+            nm = e.decl().name()
+            if e.decl().kind() == z3.Z3_OP_UNINTERPRETED and e.num_args() > 0 and nm[:2] in ('u_', 'p_') and nm[2:] in CODE_BY_NAME:
+                ch, size, lo, hi = CODE_BY_NAME[nm[2:]]
+                signed = lo < 0
+                if nm[0] == 'u':
+                    d, p = e.arg(0), e.arg(1)
+                    bv = d[p] if size == 1 else z3.Concat(*[d[p + k] for k in range(size)])
+                    out.append(z3.Implies(z3.And(p >= 0, p + size <= z3.Length(d)), e == z3.BV2Int(bv, signed)))
+                else:
+                    x = e.arg(0)
+                    bv = z3.Int2BV(x, 8 * size)
+                    units = [z3.Unit(z3.Extract(8 * (size - k) - 1, 8 * (size - k - 1), bv)) for k in range(size)]
+                    out.append(z3.Implies(z3.And(x >= lo, x <= hi), e == (units[0] if size == 1 else z3.Concat(*units))))
+            stack.extend(e.children())
+        elif z3.is_quantifier(e):
+            stack.append(e.body())
+    return out
+
+
 def build_query(eng, o):
     """formula whose unsatisfiability discharges obligation o (or whose satisfiability confirms a cover)"""
     goal = z3.BoolVal(True) if o.expect_sat and o.kind == 'cover' else z3.Not(o.cond)
@@ -131,6 +166,19 @@ def discharge(eng, o, timeout_ms=10000, use_cvc5=True, cross_check=False):
         res['cvc5_time_s'] = dt2
         if r2 != 'unknown' and r2 != r:
             res['disagreement'] = True
+    if r == 'sat' and not o.expect_sat:
+        # counterexample mode (replay ladder rung 2): same query + concrete struct semantics
+        extra = concrete_struct_axioms(fs)
+        if extra:
+            r3, model3, dt3, reason3, _ = check_z3(fs + extra, timeout_ms)
+            res['concrete'] = r3
+            res['time_s'] += dt3
+            if r3 == 'unsat':
+                r = 'unsat'
+                res['backend'] = 'z3+concrete-struct'
+                res['model'] = None
+            elif r3 == 'sat':
+                res['model'] = model3
     res['raw'] = r
     if o.expect_sat:
         res['verdict'] = {'sat': 'ok', 'unsat': 'vacuous', 'unknown': 'undecided'}[r]
